@@ -99,7 +99,7 @@ func (c serviceCodec) Decode(request []byte, context *ServiceContext) (name stri
 		}
 		decoder.Decode(&name)
 		if err = c.decodeMethod(name, context); err == nil {
-			args, err = c.decodeArguments(context.Method, decoder)
+			args, err = c.decodeArguments(context.Method, decoder, len(request))
 		}
 	case io.TagEnd:
 		name = "~"
@@ -117,7 +117,7 @@ func (c serviceCodec) decodeMethod(name string, context *ServiceContext) (err er
 	return err
 }
 
-func (c serviceCodec) decodeArguments(method Method, decoder *io.Decoder) (args []interface{}, err error) {
+func (c serviceCodec) decodeArguments(method Method, decoder *io.Decoder, limit int) (args []interface{}, err error) {
 	tag := decoder.NextByte()
 	if tag != io.TagList {
 		return
@@ -128,6 +128,11 @@ func (c serviceCodec) decodeArguments(method Method, decoder *io.Decoder) (args 
 		return args, decoder.Error
 	}
 	count := decoder.ReadInt()
+	if count < 0 || count > limit {
+		// every argument takes at least one byte of the request: such a count is a lie,
+		// and it must not size the allocations below
+		return nil, io.DecodeError("hprose/rpc/core: invalid argument count")
+	}
 	parameters := method.Parameters()
 	paramTypes := make([]reflect.Type, count)
 	if method.Func().Type().IsVariadic() {
